@@ -8,6 +8,7 @@ from .. import monitors
 from ..ref import ws as refws
 
 LEVEL = 'exploration'
+TECHNIQUE = 'runtime monitoring on a virtual clock: timestamp oracles for Poll, auto-Ping, Unresponsive and close timeout'
 BUDGET_S = {'quick': 30, 'thorough': 240}
 REQUIRED = {'all': ['oracle.poll_gaps_checked', 'oracle.autoping_multiples_checked', 'oracle.unresponsive_events',
                     'oracle.forced_disconnects', 'oracle.no_timeout_when_disabled', 'oracle.pongs_processed']}
